@@ -9,14 +9,14 @@ PROPS = {
         "assumptions": ["numbers are opaque atoms in the model", "strings.EqualFold modelled for the words true/false/null/0 (ASCII fold plus U+017F)"],
     },
     "C10": {
-        "corr": [("storage", {"quick": 1200, "thorough": 25000})],
+        "corr": [("storage", {"quick": 1200, "thorough": 25000}), ("flagcli", {"quick": 1, "thorough": 1})],
         "trusted_base": [
             "modelled, not verified: the release body codec (encoding/json + gzip + base64; the harness compares decoded releases and round-trips generated releases), client-go fake clientset (object store and label selectors behind the Secret/ConfigMap drivers), namespaces (one namespace), createdAt/modifiedAt label values",
         ],
         "assumptions": ["refinement theorems for both driver models: Secret/ConfigMap (exact) and memory (answers equal, lists up to order, for calls whose key parses and names the release it comes with -- the guard the counterexample for names containing \".v\" shows to be necessary); all three real drivers are compared step by step with their models and with the spec map"],
     },
     "C14": {
-        "corr": [("schema", {"quick": 1200, "thorough": 25000})],
+        "corr": [("schema", {"quick": 1200, "thorough": 25000}), ("flagcli", {"quick": 1, "thorough": 1})],
         "trusted_base": [
             "the validator of one schema is a parameter of the gate theorems; the santhosh-tekuri/jsonschema library is compared with an independent Lean evaluator on the generated schema family only (type, required, enum, numeric bounds, nested properties, additionalProperties:false); $ref, formats, patterns etc. are outside the family",
         ],
@@ -66,14 +66,14 @@ PROPS = {
     },
     "C05": {
         "corr": [("render", {"quick": 150, "thorough": 3000}), ("manifests", {"quick": 400, "thorough": 8000})],
-        "also": ["C08:sort", "C08:render", "C08:model"],
+        "also": ["C08:sort", "C08:render", "C08:model", "C08:split"],
         "trusted_base": [
             "not modelled: Go text/template and sprig execution (ranging over maps is sorted by text/template itself), the JSON-schema compiler's resource loading; determinism of whole renders is observed (repeated, concurrent, changed environment and working directory, archive- vs directory-loaded charts), not proved; proved: the orderings that feed the engine and the manifest do not depend on map iteration order; regenerated: the function-map facts",
         ],
         "assumptions": ["templates of the generated family use no time/random functions (now, randAlpha, uuidv4, genCA ... are classified non-deterministic by design and excluded)"],
     },
     "C20": {
-        "corr": [("crash", {"quick": 500, "thorough": 20000}), ("strvals", {"quick": 1500, "thorough": 30000}), ("storage", {"quick": 300, "thorough": 5000}), ("index", {"quick": 400, "thorough": 8000}), ("manifests", {"quick": 300, "thorough": 6000}), ("recursion", {"quick": 120, "thorough": 2500})],
+        "corr": [("crash", {"quick": 500, "thorough": 20000}), ("strvals", {"quick": 1500, "thorough": 30000}), ("storage", {"quick": 300, "thorough": 5000}), ("index", {"quick": 400, "thorough": 8000}), ("manifests", {"quick": 300, "thorough": 6000}), ("recursion", {"quick": 120, "thorough": 2500}), ("templatecli", {"quick": 60, "thorough": 600})],
         "trusted_base": [
             "template recursion: the guard of include/tpl (a counter per template name and one for tpl, shared by every closure of a render) is modelled as a call tree over finitely many counters with the Go stack as fuel; text/template itself, what templates print besides their calls, and `define`s made inside tpl texts are outside the model; the limit and the sharing of the counters are regenerated from engine.go",
             "entry points whose parsing is a library (YAML, JSON, tar/gzip, OpenPGP, text/template, jsonschema) have no Lean model: for them the correspondence is robustness testing under recover + watchdog, labelled so; modelled panic sites: strvals type assertions (with their recover), Secrets/ConfigMaps Get on undecodable records, nil index entries, import-values type assertions",
@@ -95,7 +95,7 @@ PROPS = {
         "assumptions": ["charts carry one hook per event (nHooks = 1 in the correspondence; the theorems are for every nHooks)", "crash = process death: every later request and storage call of that operation fails, the next operation starts a fresh Configuration"],
     },
     "C03": {
-        "corr": [("actions", {"quick": 800, "thorough": 20000}), ("kube", {"quick": 800, "thorough": 15000})],
+        "corr": [("actions", {"quick": 800, "thorough": 20000}), ("kube", {"quick": 800, "thorough": 15000}), ("flagcli", {"quick": 1, "thorough": 1})],
         "also": ["C01:model:", "C02:model:"],
         "trusted_base": [
             "same model and harness as C01 (ledger model of install/upgrade/rollback/uninstall with a fault plan); containment is monitored on the implementation for every failed operation whose only fault is cluster-side; the cluster side (cleanup-on-fail, the automatic rollback of --atomic) is the cluster model of C02 (upgradeFull) compared with real failed upgrades over the simulated API server",
@@ -103,7 +103,7 @@ PROPS = {
         "assumptions": ["a failure = one cluster-side phase failing (or the process dying there) with release storage itself working; storage-write failures are C01's finding success-with-storage-write-failure"],
     },
     "C06": {
-        "corr": [("dryrun", {"quick": 1200, "thorough": 30000}), ("actions", {"quick": 500, "thorough": 12000}), ("kube", {"quick": 800, "thorough": 20000}), ("dryruncli", {"quick": 1, "thorough": 1})],
+        "corr": [("dryrun", {"quick": 1200, "thorough": 30000}), ("actions", {"quick": 500, "thorough": 12000}), ("kube", {"quick": 800, "thorough": 20000}), ("dryruncli", {"quick": 1, "thorough": 1}), ("flagcli", {"quick": 1, "thorough": 1})],
         "also": ["C01:model:", "C02:model:"],
         "trusted_base": [
             "command-line wiring: the real helm template / install / upgrade commands (pkg/cmd, run as cmd/helm runs them, in child processes) are exercised in every dry-run spelling against a recording API server (monitor only, no model: any mutating request, or any request of a client-only template, is a violation); modelled, not verified: post-renderers and CRD directories (the crash/render sweeps of C05/C20 exercise them without a model); observed: request log of the simulated API server and call log of the recording storage wrapper",
@@ -118,7 +118,7 @@ PROPS = {
         "assumptions": ["every request is accepted (the property's premise)", "objects are flat; nested fields, lists with merge keys and server-side defaulting are outside the model", "strings.ToLower / TrimSpace of the resource-policy value are modelled for ASCII"],
     },
     "C07": {
-        "corr": [("kube", {"quick": 1500, "thorough": 40000}), ("dryrun", {"quick": 800, "thorough": 20000})],
+        "corr": [("kube", {"quick": 1500, "thorough": 40000}), ("dryrun", {"quick": 800, "thorough": 20000}), ("flagcli", {"quick": 1, "thorough": 1})],
         "also": ["C02:model:", "C06:model:"],
         "trusted_base": [
             "same cluster model and simulator as C02; the record side (no storage write before the ownership check) is the ledger model's pre-flight phase, tied by the kube sub-command's storage write log",
@@ -126,7 +126,7 @@ PROPS = {
         "assumptions": ["six ownership states are generated for pre-existing objects: foreign, other release name, same name other namespace, label only, annotations only, correctly owned", "CRDs from crds/ are generated by the dryrun sub-command (the install path creates them before the ownership check: known finding)"],
     },
     "C12": {
-        "corr": [("hooks", {"quick": 1200, "thorough": 30000}), ("actions", {"quick": 400, "thorough": 8000})],
+        "corr": [("hooks", {"quick": 1200, "thorough": 30000}), ("actions", {"quick": 400, "thorough": 8000}), ("flagcli", {"quick": 1, "thorough": 1})],
         "also": ["C01:model:writes"],
         "trusted_base": [
             "modelled, not verified: the hook list of a release (kinds, weights, events, policies parsed from annotations by SortManifests: C08; the model of execHook is fed with the list the implementation built, the monitors use the generator's own weights), hook readiness (WatchUntilReady is a scripted oracle), log-output policies, CustomResourceDefinition hooks (never deleted: not generated), the API server (a create of an existing object is refused)",
